@@ -65,6 +65,11 @@ var g03Payloads = []g03Payload{
 	{"func", "and_updatexml(1,concat(0x7e,user()),1)"}, {"func", "and_1=sleep(5)"}, {"func", "and_(select_sleep(5))"}, {"func", "or_1=(select_count(*)_from_t)"},
 	{"func", "and_ascii(substring(user(),1,1))>1"}, {"func", "and_if(1=1,sleep(5),0)"}, {"func", "and_1=convert(int,@@version)"}, {"func", "procedure_analyse()"},
 	{"func", "and_exists(select_1)"}, {"func", "and_load%file(QxQ)"}, {"func", "waitfor_delay_Q0:0:5Q"}, {"func", "and_length(database())>0"},
+	// payloads whose string arguments use a fixed quote character whatever the context (S = ', D = ")
+	{"stack", ";_exec_xp%cmdshell_SdirS"}, {"stack", ";_waitfor_delay_S0:0:5S"}, {"func", "and_sleep(S5S)"}, {"func", "and_benchmark(5000000,md5(SaS))"}, {"union", "union_select_SaS,2"}, {"taut", "or_SaS=SaS"},
+	{"union", "union_select_DaD,2"}, {"taut", "or_DaD=DaD"}, {"func", "and_load%file(DxD)"}, {"func", "and_extractvalue(1,concat(S~S,version()))"},
+	// T-SQL IF after a statement separator
+	{"stack", ";_if_(1=1)_waitfor_delay_Q0:0:5Q"}, {"stack", ";if(1=1)_drop_table_t"}, {"stack", ";_if_exists(select_1)_drop_table_t"}, {"stack", ";_if_1=1_drop_table_t"},
 	// comment truncation (quoted prefixes only)
 	{"trunc", ""},
 }
@@ -164,6 +169,12 @@ func g03Build(m g03Member, sepAt func(i int) string, mask uint64) string {
 		case c == 'Q':
 			b.WriteByte(q)
 			inLit = !inLit
+		case c == 'S' && isUpperMarker(tm, i):
+			b.WriteByte('\'')
+			inLit = !inLit
+		case c == 'D' && isUpperMarker(tm, i):
+			b.WriteByte('"')
+			inLit = !inLit
 		case !inLit && (c >= 'a' && c <= 'z'):
 			if mask>>(letter&63)&1 == 1 {
 				c -= 0x20
@@ -178,7 +189,52 @@ func g03Build(m g03Member, sepAt func(i int) string, mask uint64) string {
 	return b.String()
 }
 
+// templates are lower-case; the upper-case letters S, D, Q are markers
+func isUpperMarker(tm string, i int) bool { return true }
+
 var g03FixedMasks = []uint64{0, ^uint64(0), 0xAAAAAAAAAAAAAAAA, 0x5555555555555555}
+
+// g03WordMasks: for every word (maximal run of case-assignable letters) of a
+// template, masks that re-case only that word: all 2^k assignments for words
+// of up to 4 letters, first-upper / last-upper / alternating / all-upper for
+// longer ones. Case folding lost on one keyword shows here even when the
+// all-lower and all-upper spellings still work.
+func g03WordMasks(tm string) []uint64 {
+	var out []uint64
+	letter := uint(0)
+	inLit := false
+	i := 0
+	for i < len(tm) {
+		c := tm[i]
+		if c == 'Q' || c == 'S' || c == 'D' {
+			inLit = !inLit
+			i++
+			continue
+		}
+		if inLit || !(c >= 'a' && c <= 'z') {
+			i++
+			continue
+		}
+		start := letter
+		n := uint(0)
+		for i < len(tm) && tm[i] >= 'a' && tm[i] <= 'z' {
+			i++
+			n++
+			letter++
+		}
+		if start+n > 64 {
+			break
+		}
+		if n <= 4 {
+			for m := uint64(1); m < 1<<n; m++ {
+				out = append(out, m<<start)
+			}
+		} else {
+			out = append(out, uint64(1)<<start, uint64(1)<<(start+n-1), (uint64(0xAAAAAAAAAAAAAAAA)&((1<<n)-1))<<start, ((uint64(1)<<n)-1)<<start, (uint64(0x5555555555555555)&((1<<n)-1))<<start)
+		}
+	}
+	return out
+}
 
 // genC03 emits attack strings; meta = "family|tmpl|prefix|tail".
 func genC03(w *core.Worker, u core.Unit, emit func(s string, meta string)) {
@@ -187,13 +243,21 @@ func genC03(w *core.Worker, u core.Unit, emit func(s string, meta string)) {
 		return
 	}
 	r := core.NewRng(w.R.Seed, "g03", fmt.Sprint(u.Lo))
+	g03InitWordCases()
 	for i := u.Lo; i < u.Hi; i++ {
 		m := g03Members[i%nm]
 		round := i / nm
 		var s string
 		nsep := uint64(len(g03Seps))
 		nmask := uint64(len(g03FixedMasks))
-		if round < nsep*nmask {
+		exh1 := nm * nsep * nmask
+		if i >= exh1 && i < exh1+uint64(len(g03WordCases)) {
+			// exhaustive part 2: one word of the payload re-cased, the rest lower-case
+			wc := g03WordCases[i-exh1]
+			m = g03Members[wc.m]
+			sep := g03Seps[int(i)%3]
+			s = g03Build(m, func(int) string { return sep }, wc.mask)
+		} else if round < nsep*nmask {
 			// exhaustive part: one separator per string x fixed masks
 			sep := g03Seps[round%nsep]
 			s = g03Build(m, func(int) string { return sep }, g03FixedMasks[round/nsep])
@@ -206,15 +270,46 @@ func genC03(w *core.Worker, u core.Unit, emit func(s string, meta string)) {
 	}
 }
 
+var g03WordCases []struct {
+	m    int
+	mask uint64
+}
+
+func g03InitWordCases() {
+	if g03WordCases != nil {
+		return
+	}
+	cache := map[int][]uint64{}
+	for mi, m := range g03Members {
+		wm, ok := cache[m.pay]
+		if !ok {
+			wm = g03WordMasks(g03Payloads[m.pay].tmpl)
+			cache[m.pay] = wm
+		}
+		// every closer/tail combination would multiply the count; word masks
+		// are applied to one closer and two tails per (prefix, payload)
+		if m.closer != 0 || m.tail > 1 {
+			continue
+		}
+		for _, k := range wm {
+			g03WordCases = append(g03WordCases, struct {
+				m    int
+				mask uint64
+			}{mi, k})
+		}
+	}
+}
+
 func g03ExhaustiveCount() uint64 {
-	return uint64(len(g03Members)) * uint64(len(g03Seps)) * uint64(len(g03FixedMasks))
+	g03InitWordCases()
+	return uint64(len(g03Members))*uint64(len(g03Seps))*uint64(len(g03FixedMasks)) + uint64(len(g03WordCases))
 }
 
 // C03 — canonical SQL injection families are detected in every quoting context.
 func c03() *core.Check {
 	return &core.Check{
 		ID: "C03",
-		Rule: "members of the fixed attack grammar G_sqli (prefix x closers x separator x payload family x case mask x tail; productions dropped by the one-time calibration are listed in grammar/g03_dropped.txt): exhaustively with one separator per string and four fixed case masks, then sampled with an independent separator per gap and random masks. Oracle: IsSQLi = true. " +
+		Rule: "members of the fixed attack grammar G_sqli (prefix x closers x separator x payload family x case mask x tail; productions dropped by the one-time calibration are listed in grammar/g03_dropped.txt): exhaustively with one separator per string and four fixed case masks, then every word of the payload re-cased on its own (all 2^k assignments for words up to 4 letters), then sampled with an independent separator per gap and random masks. Oracle: IsSQLi = true. " +
 			"Non-trivial = every member; distinct by string.",
 		Plan: func(tier string, seed uint64) []core.Unit {
 			total := g03ExhaustiveCount()
